@@ -63,6 +63,21 @@ func newFull(base string) (FullFS, func(), error) {
 	return nil, nil, fmt.Errorf("unknown full base %q", base)
 }
 
+// MaskedMemFS returns a constructor of mem.FS hidden behind the capability mask 'kind' (one of MaskKinds).
+func MaskedMemFS(kind string) func() (hackpadfs.FS, func(), error) {
+	return func() (hackpadfs.FS, func(), error) {
+		full, cl, err := newFull("mem")
+		if err != nil {
+			return nil, nil, err
+		}
+		m := NewMask(kind, full)
+		if m == nil {
+			return nil, nil, fmt.Errorf("unknown mask kind %q", kind)
+		}
+		return m, cl, nil
+	}
+}
+
 // ---------------------------------------------------------------------------------------------
 // fault injection at the primitive level
 
